@@ -23,7 +23,7 @@ func init() {
 			Assumptions: []string{"go/types + go/ssa", "C15 table extraction", "production folding (E-F) re-verified each run"},
 			MinObl:      10,
 		},
-		Configs: tiered(linuxQuick, linuxAll),
+		Configs: tiered(concat(linuxQuick, []Config{{"freebsd", "amd64"}}), concat(linuxAll, kqueueQuick)),
 		Run:     runC02,
 	})
 }
@@ -31,6 +31,17 @@ func init() {
 func runC02(p *Program, e *Engine, r *Result, tier string) {
 	a := newAn(p, e, r, true)
 	if a == nil {
+		return
+	}
+	if strings.Contains(strings.Join(r.Files, " "), "backend_kqueue.go") {
+		// kqueue backend (cross-compiled): a Create for an entry that existed when its directory was added is a phantom.
+		// The one structural clause: the decision to list an already watched directory on Add (and mark its entries
+		// seen) reads the watch's previous flags, not the ones this Add has just stored (= C18.10).
+		kf := kqFind(a)
+		if kf == nil {
+			return
+		}
+		c18RescanDecision(a, kf, "C02.7")
 		return
 	}
 	df := decodeFacts(a)
